@@ -124,7 +124,10 @@ def validate_model(tier):
         sites = ['s%d' % i for i in range(n)]
         for k in range(1, n + 1):
             sb = hyruns.SiteBatch(sites, k)
-            ok = all(s in sb[sb.search(s)] for s in sites) and sorted(sum([sb[i] for i in range(k)], [])) == sorted(sites)
+            try:
+                ok = all(s in sb[sb.search(s)] for s in sites) and sorted(sum([sb[i] for i in range(k)], [])) == sorted(sites)
+            except Exception:
+                ok = False
             out.append(('SiteBatch.search-returns-the-batch-holding-the-site', ok, dict(nsites=n, nbatch=k)))
     return out
 
